@@ -156,7 +156,8 @@ def _case_findings(program: G.Program, ex: L.Exam):
     if ex.c_syntax is not None and not ex.c_syntax[0]:
         text = ex.c_syntax[1]
         m = re.search(r"unknown type name .(\w+).", text)
-        cls = _name_class(program, m.group(1)) if m else ("string-special" if special and ("terminating" in text or "expected" in text or "stray" in text) else "general")
+        cls = "user-dir-named-core_defs" if "dir-core_defs" in program.classes and ("unknown type name" in text or "undeclared" in text) else \
+            _name_class(program, m.group(1)) if m else ("string-special" if special and ("terminating" in text or "expected" in text or "stray" in text) else "general")
         out.append((f"c/does-not-compile/{cls}", f"gcc rejects the generated header: {text}"[:400]))
     # ---- JavaScript
     raw = ex.raw.get("js")
